@@ -899,7 +899,7 @@ def _stats_win_only_csd_np(x1, x2, starts, L, w, omega, *, _chunk=32768):
     _check_starts_bounds(x2.shape[0], starts, L)
 
     n = np.arange(L, dtype=np.float64)
-    e = np.exp(1j * omega * n)
+    e = np.exp(-1j * omega * n)
 
     p1 = np.empty(K, dtype=np.float64)
     p2 = np.empty(K, dtype=np.float64)
@@ -975,7 +975,7 @@ def _stats_detrend0_csd_np(x1, x2, starts, L, w, omega, *, _chunk=32768):
     _check_starts_bounds(x2.shape[0], starts, L)
 
     n = np.arange(L, dtype=np.float64)
-    e = np.exp(1j * omega * n)
+    e = np.exp(-1j * omega * n)
 
     p1 = np.empty(K, dtype=np.float64)
     p2 = np.empty(K, dtype=np.float64)
@@ -1063,7 +1063,7 @@ def _stats_poly_csd_np(x1, x2, starts, L, w, omega, Q, *, _chunk=8192):
     _check_starts_bounds(x2.shape[0], starts, L)
 
     n = np.arange(L, dtype=np.float64)
-    e = np.exp(1j * omega * n)
+    e = np.exp(-1j * omega * n)
 
     p1 = np.empty(K, dtype=np.float64)
     p2 = np.empty(K, dtype=np.float64)
